@@ -382,6 +382,8 @@ Fixpoint corr_props (prop : N) (blk : block) (l : amap N proposal) (o : list pob
 (* acceptance of which operations belongs to which property's slice *)
 Definition owns_acceptance (prop : N) (o : op) : bool :=
   match prop, o with
+  | 3, Propose _ _ _ _ => false          (* C03 speaks about votes, status and the admission of Execute / Close *)
+  | 5, Vote _ _ => false                 (* C05 about proposing, executing, closing *)
   | 6, (Propose _ _ _ _ | Vote _ _) => true
   | 6, _ => false
   | 15, Vote _ _ => false
@@ -446,7 +448,8 @@ Fixpoint check_steps (prop : N) (self : N) (starts : list (N * N)) (i : N) (ms :
       let hok_m := is_ok (step ms gv blk sender o) in
       let '(ms', ok_m) := tx ms gv blk self sender o (Bool.eqb ok hok) in
       if negb (Bool.eqb hok hok_m) || (ok && negb ok_m)
-      then (if owns_acceptance prop o then known ++ [(i, 49)] ++ contracts_only prop starts (i + 1) ms r else known)
+      then (if owns_acceptance prop o then known ++ [(i, 49)] ++ contracts_only prop starts (i + 1) ms r
+            else known ++ contracts_only prop starts (i + 1) ms r)
       else if negb (corr_props prop blk (proposals ms') (ob_props after))
       then known ++ [(i, 50)] ++ contracts_only prop starts (i + 1) ms r
       else if ((prop =? 5) || (prop =? 15)) && hok &&
